@@ -158,6 +158,12 @@ def check_disk(case):
     proj = disk.Project(prog, extra_files=extra)
     try:
         argv = disk.cli_args(prog["cfg"]) + ["-f", "null", "features"]
+        if case.get("junit"):
+            # another reporter stands in front of the summary reporter (--junit): the summary accounts for the same
+            argv = ["--junit", "--junit-directory", "reports"] + argv
+            res.label("disk:junit-reporter-in-front")
+            if prog["cfg"].get("stop"):
+                res.label("disk:junit+stop")
         run = disk.run_inproc(proj, argv, prog)
         interrupted = any(k == "KeyboardInterrupt" for _i, k in prog.get("hook_faults") or [])
         if interrupted and isinstance(run.escaped, KeyboardInterrupt):
@@ -366,8 +372,10 @@ def interrupted_case(draw):
 
 @st.composite
 def disk_case(draw):
-    prog = draw(gen.program_st(faults=False, max_features=3, cfg=gen.cfg_st(flags=("dry_run",), p_tags=0.3)))
+    prog = draw(gen.program_st(faults=False, max_features=3, cfg=gen.cfg_st(flags=("dry_run", "stop"), p_tags=0.3)))
     case = {"kind": "disk", "program": prog}
+    if draw(st.integers(0, 2)) == 0:
+        case["junit"] = True
     if draw(st.booleans()):
         # legal *.feature files without a feature, sorted before / between / after the real ones
         names = draw(st.lists(st.sampled_from(["a0.feature", "f0x.feature", "f1x.feature", "zz.feature", "sub/e.feature"]),
@@ -405,7 +413,7 @@ def explore(rec):
 
 def required_labels(tier):
     return ["status:" + s for s in ["passed", "failed", "error", "hook_error", "skipped", "untested", "undefined",
-                                    "pending", "pending_warn"]] + ["cut-short", "has-rule", "hook-fault", "dry-run", "interrupted-in-hook", "disk", "disk:feature-less-files", "disk:interrupted-in-step-hook", "listing:long-locations", "same-titled-features"]
+                                    "pending", "pending_warn"]] + ["cut-short", "has-rule", "hook-fault", "dry-run", "interrupted-in-hook", "disk", "disk:feature-less-files", "disk:interrupted-in-step-hook", "listing:long-locations", "same-titled-features", "disk:junit+stop"]
 
 
 KNOWN_PREDICATES = {}
